@@ -207,22 +207,39 @@ def Param.viaFunc : Param → Option FParam
 inductive Beh
   | const (name : String)
   | key (k : String)       -- `param.Get(k, "").(string)`
+  | nest (k : String) (tB : String) (inner : KVs)
+      -- first calls `Route(tB, inner-as-key-map)` (a nested, re-entrant evaluation whose
+      -- result it discards), then answers `param.Get(k, "").(string)` from ITS OWN parameter
   | empty
   | panic
   deriving DecidableEq, Repr
 
-/-- result of calling the function; `none` = it panicked -/
-def applyBeh : Beh → FParam → Option String
-  | .const n, _ => some n
-  | .empty, _ => some ""
-  | .panic, _ => none
-  | .key _, .nilIface => none                 -- method call on a nil interface
-  | .key _, .nilPtr => none                   -- nil pointer dereference in MapParam.Get
-  | .key k, .kvs l =>
+/-- the key of its own parameter a function answers from -/
+def Beh.keyOf : Beh → Option String
+  | .key k => some k
+  | .nest k _ _ => some k
+  | _ => none
+
+/-- `param.Get(k, "").(string)`; `none` = it panicked -/
+def applyKey (k : String) : FParam → Option String
+  | .nilIface => none                         -- method call on a nil interface
+  | .nilPtr => none                           -- nil pointer dereference in MapParam.Get
+  | .kvs l =>
     match getKey l k with
     | none => some ""                         -- the default ""
     | some (.str s) => some s
     | some .other => none                     -- failed type assertion
+
+/-- result of calling the function; `none` = it panicked.  Evaluations are pure: a
+nested `Route` call (which recovers its own panics) cannot influence what the outer
+function reads from its own parameter — that independence is exactly what the
+differential run checks against the code (a pooled / shared parameter wrapper breaks it). -/
+def applyBeh : Beh → FParam → Option String
+  | .const n, _ => some n
+  | .empty, _ => some ""
+  | .panic, _ => none
+  | .key k, fp => applyKey k fp
+  | .nest k _ _, fp => applyKey k fp
 
 structure Rules where
   table : List (String × Beh)
